@@ -122,6 +122,12 @@ let run_case (t : string list) : string =
     (match expand_pass_exec (unhex dest) (zs stride) (zs p) (zs line) (zs width) (zs bits) (unhex row) with
      | Some d -> hex d
      | None -> "PANIC invalid pass")
+  | ["writer"; anim; sep; plte; ns] ->
+    let c = { animated = (if anim = "-" then None else Some (nat_of_int (int_of_string anim))); sep_def = (sep = "1"); has_plte = (plte = "1"); anc_before = O; anc_after = O } in
+    let l = emitted c (List.map (fun x -> nat_of_int (int_of_string x)) (String.split_on_char ',' ns)) in
+    String.concat " " (List.filter_map (fun k -> match k with
+      | KACTL _ -> Some "acTL" | KFCTL q -> Some (Printf.sprintf "fcTL:%d" (int_of_nat q)) | KIDAT -> Some "IDAT"
+      | KFDAT q -> Some (Printf.sprintf "fdAT:%d" (int_of_nat q)) | KIEND -> Some "IEND" | _ -> None) l)
   | ["reader"; rows; declared; fctl0; ops] ->
     let rl = List.map (fun x -> nat_of_int (int_of_string x)) (String.split_on_char ',' rows) in
     let im = { rows = rl; declared = nat_of_int (int_of_string declared); has_fctl = (fun k -> if k = O then fctl0 = "1" else true) } in
